@@ -282,12 +282,13 @@ def _unflat(f):
 
 
 def twin_record(rel, A, B, *, kind, wca=(-1,), pi=None, lead=None, slack=256, exc='', exc_clause='raises', fp='', key='',
-                fine=0, raw=None):
+                fine=0, raw=None, amp=None):
     """fine < 0: also log the double-precision residual B - A o Map (raw = (list of A arrays, list of B arrays) by field
     order); TLC checks it is consistent with the Flt difference and bounded by 2^fine (|a|+|b|+floor)."""
     wl = [wca] if isinstance(wca, int) else [int(a) for a in wca]
     rec = dict(kind='twin', rel=rel, A=A or [], B=B or [], pi=pi or [], lead=lead or [], slack=int(slack), fine=int(fine), R=[],
-               integration=kind in INTEGRATION, wca=wl, exc=exc, exc_clause=exc_clause, fp=fp, key=key)
+               integration=kind in INTEGRATION, wca=wl, exc=exc, exc_clause=exc_clause, fp=fp, key=key,
+               amp=[] if not amp else [enc.flt(float(x)) for x in amp])
     if fine < 0 and A and B and raw is not None and rel in ('same', 'perm'):
         R = []
         for fa, a, b in zip(A, raw[0], raw[1]):
